@@ -526,6 +526,13 @@ func (te *TEnv) call(x ECall) TV {
 			sfail("box of non-scalar")
 		}
 		return TV{T(SIface, "(%s %s)", Sym(mk), tv.V.(Term).S), nil}
+	case "deref":
+		a := te.tr(arg(0))
+		if a.T == nil {
+			sfail("deref needs a typed pointer")
+		}
+		et := deref(a.T)
+		return TV{v.loadCell(te.st, a.V.(Term), et, te.quiet()), et}
 	case "elemref":
 		a := te.tr(arg(0))
 		if s, ok := a.V.(SliceV); ok {
